@@ -433,6 +433,14 @@ class FunctionEngine(CallsMixin, Engine):
     def assign_to(self, tgt, val, st):
         if isinstance(tgt, ast.Name):
             self.assign_name(tgt.id, val, st)
+        elif isinstance(tgt, (ast.Tuple, ast.List)) and not all(isinstance(e, (ast.Name, ast.Tuple, ast.List)) for e in tgt.elts):
+            # unpacking into subscripts / attributes: element-wise assignment
+            if val.ty.kind == 'Optional':
+                val = self.coerce(val, val.ty.args[0], st, 'unpacked value')
+            if val.ty.kind != 'Tuple' or len(val.ty.args) != len(tgt.elts):
+                raise Unsupported('unpacking into non-name targets needs a tuple of matching arity')
+            for i, e in enumerate(tgt.elts):
+                self.assign_to(e, self.tuple_get(val, i, st), st)
         elif isinstance(tgt, (ast.Tuple, ast.List)):
             tmp = State()
             tmp2 = {}
